@@ -1153,7 +1153,7 @@ def port_where(cs, hot, ops, k):
 
 
 def check_ports(ctx, exe, d, n_big, n_custom, n_write):
-    pdir = os.path.join(B.SCRATCH, "c12-ports")
+    pdir = os.path.join(B.SCRATCH, "c12-ports-%d" % os.getpid())
     os.makedirs(pdir, exist_ok=True)
     cases = gen_port_cases(ctx, n_big, n_custom)
     prelude = open(os.path.join(HARNESS, "c12_hist.scm")).read()
@@ -1383,7 +1383,7 @@ def gen_illformed_cases(ctx, n_big):
 
 
 def check_illformed_ports(ctx, exe, d, n_big):
-    pdir = os.path.join(B.SCRATCH, "c12-badports")
+    pdir = os.path.join(B.SCRATCH, "c12-badports-%d" % os.getpid())
     os.makedirs(pdir, exist_ok=True)
     cases = gen_illformed_cases(ctx, n_big)
     prelude = open(os.path.join(HARNESS, "c12_hist.scm")).read()
